@@ -119,3 +119,41 @@ def dump_resume(prop, tier, seed, timeout_ms, only=None, **_):
     u.monitor_violations = [{"message": v["what"], "property": prop, "detail": v} for v in res["violations"]]
     u.status = "failed" if res["violations"] else "held"
     return [u]
+
+
+def _generic(module, title):
+    """Provider for the harnesses that follow the common protocol (level, seed -> BOUNDED-RESULT json with
+    evaluations / cases / violations / samples / rule)."""
+    def provider(prop, tier, seed, timeout_ms, only=None, **_):
+        if only and "bounded" not in only:
+            return []
+        level = 1 if tier == "quick" else 2
+        t0 = time.time()
+        u = UnitResult("bounded:" + title, kind="bounded")
+        u.props = [prop]
+        u.model_name = "native"
+        try:
+            res, err = _run("bounded." + module, [level, seed], timeout=600 if level == 1 else 3000)
+        except subprocess.TimeoutExpired:
+            res, err = None, "timeout"
+        u.seconds = time.time() - t0
+        if res is None:
+            u.status, u.detail = "crash", "bounded harness failed: %s" % err
+            return [u]
+        u.evaluations = res.get("evaluations", 0)
+        u.distinct = res.get("cases", 0)
+        u.rule = res.get("rule", "") + " (level %d, seed %d); distinct = generated cases" % (level, seed)
+        u.samples = res.get("samples", [])[:3]
+        u.detail = "BOUNDED: %d cases, %d clause evaluations" % (u.distinct, u.evaluations)
+        u.monitor_violations = [{"message": v.get("what", "violation"), "property": prop, "detail": v} for v in res.get("violations", [])]
+        u.status = "failed" if res.get("violations") else ("held" if u.evaluations > 0 else "crash")
+        if u.status == "crash":
+            u.detail += " | the harness evaluated nothing"
+        return [u]
+    return provider
+
+
+occupancy = _generic("occupancy_api", "occupancy-api")
+thinning = _generic("thinning_api", "thinning-api")
+factor_files = _generic("factor_files_api", "factor-files-api")
+composite = _generic("composite_api", "composite-api")
